@@ -68,6 +68,8 @@ impl LogicalLineFileFormatter for OptimisingLineFormatter {
             token_types,
             token_lengths,
             child_line_cache: Default::default(),
+            #[cfg(feature = "verif")]
+            verif_fresh_keys: Default::default(),
         };
 
         for line in input
@@ -122,11 +124,15 @@ impl LogicalLineFileFormatter for OptimisingLineFormatter {
         lines_to_reflow.sort_by_key(|line| line.0);
         lines_to_reflow.dedup_by_key(|line| line.0);
 
+        #[cfg(feature = "verif")]
+        crate::verif::set_in_reflow(true);
         for line in lines_to_reflow {
             if let Some(solution) = olf.format_line(line) {
                 olf.reconstruct_solution(&solution, line.1);
             }
         }
+        #[cfg(feature = "verif")]
+        crate::verif::set_in_reflow(false);
         Self::remove_spaces_at_line_starts(olf.formatted_tokens);
     }
 }
@@ -304,6 +310,9 @@ struct InternalOptimisingLineFormatter<'this, 'token> {
     /// has lifetime issues with recursion and looping.
     child_line_cache:
         RefCell<FxHashMap<ChildLineInitialConditions, Vec<(usize, FormattingSolution)>>>,
+    /// Hashes of the cache keys inserted during the re-flow after multi-line string re-indentation.
+    #[cfg(feature = "verif")]
+    verif_fresh_keys: RefCell<fxhash::FxHashSet<u64>>,
 }
 
 impl<'this> InternalOptimisingLineFormatter<'this, '_> {
@@ -522,6 +531,8 @@ impl<'this> InternalOptimisingLineFormatter<'this, '_> {
         let mut node_successors = Vec::new();
 
         'node_heap: while let Some(mut node) = node_heap.pop() {
+            #[cfg(feature = "verif")]
+            crate::verif::bump(|c| c.wrapper_nodes += 1);
             if iteration_count > self.settings.iteration_max {
                 return Err(FormattingSolutionError::IterationLimitReached);
             }
@@ -1084,6 +1095,15 @@ impl<'this> InternalOptimisingLineFormatter<'this, '_> {
                 child_line_option: option,
             };
             if let Some(sol) = self.child_line_cache.borrow().get(&cache_key) {
+                #[cfg(feature = "verif")]
+                if crate::verif::in_reflow()
+                    && !self
+                        .verif_fresh_keys
+                        .borrow()
+                        .contains(&fxhash::hash64(&cache_key))
+                {
+                    crate::verif::bump(|c| c.stale_child_cache_hits += 1);
+                }
                 return Some(sol.clone());
             }
 
@@ -1120,6 +1140,12 @@ impl<'this> InternalOptimisingLineFormatter<'this, '_> {
                 child_solutions.push(child_solution);
             }
 
+            #[cfg(feature = "verif")]
+            if crate::verif::in_reflow() {
+                self.verif_fresh_keys
+                    .borrow_mut()
+                    .insert(fxhash::hash64(&cache_key));
+            }
             self.child_line_cache
                 .borrow_mut()
                 .insert(cache_key, child_solutions.clone());
